@@ -190,6 +190,47 @@ static std::vector<F> floats ()
   return std::vector<F> (c, c + sizeof c / sizeof c[0]);
 }
 
+// ---- value-initialisation cells: V(n) / resize(n) must produce T() whatever shortcut fills the storage
+struct MPHolder { int MPHolder::*mp; int x; };
+inline bool operator== (const MPHolder& a, const MPHolder& b) { return a.mp == b.mp && a.x == b.x; }
+struct TrivAgg { double d; int *p; char c; };
+inline bool operator== (const TrivAgg& a, const TrivAgg& b) { return a.d == b.d && a.p == b.p && a.c == b.c; }
+
+template <typename T, unsigned N>
+static void value_init_n (const char *tname)
+{
+  typedef gch::small_vector<T, N> V;
+  const T zero = T ();
+  for (unsigned n = 0; n < 12; ++n)
+  {
+    V v (static_cast<typename V::size_type> (n));
+    V w; w.resize (static_cast<typename V::size_type> (n));
+    V x; x.reserve (20); x.resize (static_cast<typename V::size_type> (n));            // heap with slack
+    V y (static_cast<typename V::size_type> (3), zero); y.resize (static_cast<typename V::size_type> (3 + n));   // grow an existing vector
+    ++g_elems;
+    bool ok = v.size () == n && w.size () == n && x.size () == n && y.size () == 3 + n;
+    for (unsigned i = 0; ok && i < n; ++i) ok = v[i] == zero && w[i] == zero && x[i] == zero && y[3 + i] == zero;
+    if (! ok)
+    {
+      G ().opkey = format ("value-init/%s", tname);
+      G ().caseid = format ("value-init/%s/N%u/n%u", tname, N, n);
+      violate ("C13", "conv.value-init", "small_vector<%s,%u>(%u) / resize(%u): an element is not a value-initialised %s (storage was filled with bytes instead of T()?)", tname, N, n, n, tname);
+      return;
+    }
+  }
+}
+
+template <typename T>
+static void value_init_cell (const char *tname)
+{
+  g_from = "value-init"; g_to = tname;
+  ++g_cells;
+  marker_desc (format ("value-init %s", tname).c_str (), "conv");
+  value_init_n<T, 0> (tname); value_init_n<T, 4> (tname); value_init_n<T, 16> (tname);
+  COV ().tuple (format ("value-init|%s|trivially-default-constructible=%d", tname, int (std::is_trivially_default_constructible<T>::value)));
+  COV ().evaluations = g_elems;
+}
+
 #define CELL(F, T, SRC) cell<F, T> (#F, #T, SRC)
 #ifndef CONV_PART
 #  define CONV_PART 0     // 0 = everything in one TU (slow to compile); 1..8 = one group
@@ -273,6 +314,10 @@ int main (int argc, char **argv)
     CELL (VDerived *, VBase *, vp); CELL (VDerived *, const VBase *, vp); CELL (Derived *, Derived *, dp);
 #endif
 #if PART (8)
+    value_init_cell<int> ("int"); value_init_cell<double> ("double"); value_init_cell<float> ("float"); value_init_cell<bool> ("bool");
+    value_init_cell<int *> ("int*"); value_init_cell<E32> ("E32"); value_init_cell<int Plain::*> ("int Plain::*");
+    value_init_cell<MPHolder> ("struct{member pointer,int}"); value_init_cell<TrivAgg> ("struct{double,int*,char}");
+    value_init_cell<void (Plain::*) ()> ("void (Plain::*)()"); value_init_cell<long double> ("long double");
     CELL (Plain *, const Plain *, pp); CELL (Plain *, void *, pp); CELL (Plain *, const volatile Plain *, pp);
     CELL (int *, const int *, ip); CELL (int *, void *, ip); CELL (const int *, const void *, cip); CELL (int *, const volatile void *, ip);
     CELL (Derived *, const Derived *, dp);
